@@ -980,6 +980,10 @@ def bi_nraised(st, args, kw):
     return E.mk_int(len([1 for e in st.call_log if len(e) > 3 and R.is_subclass(e[3], cls)]))
 
 
+def bi_str_prefix(st, args, kw):
+    return E.mk_bool(z3.PrefixOf(args[1].z, args[0].z))
+
+
 def bi_mkseq(st, args, kw):
     a, n = args
     return Val(T.TSeq(a.t.args[1]), SeqV(a.z, n.z))
@@ -1037,7 +1041,7 @@ def bi_dict(st, args, kw):
 
 
 _BUILTINS = {
-    'mkseq': bi_mkseq, 'nraised': bi_nraised, 'allocated': bi_allocated, 'ncalls': bi_ncalls, 'call_arg': bi_call_arg,
+    'mkseq': bi_mkseq, 'str_prefix': bi_str_prefix, 'nraised': bi_nraised, 'allocated': bi_allocated, 'ncalls': bi_ncalls, 'call_arg': bi_call_arg,
     'call_result': bi_call_result, 'trig': bi_trig, 'same': bi_same, 'is_list': bi_is_list, 'store': bi_store, 'dict_has': bi_dict_has,
     'dict_get': bi_dict_get, 'dict_keys': bi_dict_keys, 'dict': bi_dict, 'dict_index': bi_dict_index,
     'len': bi_len, 'set': bi_set, 'list': bi_list, 'tuple': bi_tuple, 'min': bi_min, 'max': bi_max,
